@@ -458,6 +458,17 @@ def report_violations(prop_id, mod, seed, args, viols, t0, agg, pre, st=None):
                 v["decoy_spec"] = None
         else:
             info = {"minimised": False}
+        world_replay = None
+        if info.get("reproduced") is False and sc is not None and v.get("world_seed") is not None:
+            # Neither the scenario alone nor the scenario after the earlier runs of its world fails again: the failure
+            # depends on the exact state of the process (e.g. an object address that is recycled).  The whole world
+            # job is a pure function of (world seed, runs, tier) in a child forked from a warmed parent: use it.
+            wj = {"prop": prop_id, "seed": v["world_seed"], "runs": args.runs or mod.BUDGET[args.tier]["runs"]}
+            _, st_w, pay_w = runner.run_one(world_job, wj, wall=mod.BUDGET[args.tier].get("world_wall", 90) + 60)
+            again = st_w == "ok" and any(x["rule"] == rule for x in pay_w["violations"])
+            info["reproduced_by_whole_world"] = bool(again)
+            if again:
+                world_replay = {"world_seed": v["world_seed"], "runs": wj["runs"], "tier": args.tier}
         sig = sig_of(v, spec, sc)
         kf = findings.match(known, prop_id, rule, sig)
         if kf is not None:
@@ -469,7 +480,7 @@ def report_violations(prop_id, mod, seed, args, viols, t0, agg, pre, st=None):
         new += 1
         rp = {"property": prop_id, "rule": rule, "signature": sig, "seed": seed, "world_seed": v.get("world_seed"),
               "message": v.get("msg"), "op": v.get("op"), "spec": spec, "scenario": sc, "minimisation": info,
-              "decoy_spec": v.get("decoy_spec"),
+              "decoy_spec": v.get("decoy_spec"), "world_replay": world_replay,
               "prefix_scenarios": info.get("prefix_scenarios") if info.get("minimised") is not False else (v.get("prefix") or None),
               "history": v.get("history") if info.get("minimised") is False else info.get("history")}
         name = f"{prop_id}-{seed}-{R.digest([spec, sc, rule])[:8]}.json"
@@ -507,9 +518,15 @@ def replay(prop_id, mod, path):
     with open(path) as f:
         rp = json.load(f)
     warm()
-    job = {"prop": prop_id, "spec": rp["spec"], "scenario": rp.get("scenario"), "rule": rp.get("rule", ""),
-           "decoy_spec": rp.get("decoy_spec"), "prefix_scenarios": rp.get("prefix_scenarios")}
-    _, st, pay = runner.run_one(replay_job, job, wall=300 if rp.get("prefix_scenarios") else 120)
+    if rp.get("world_replay"):
+        # the failure needs the exact process state of its world: replay the whole world job (seed -> spec -> runs)
+        wr = rp["world_replay"]
+        os.environ["VERIF_TIER_ACTIVE"] = wr.get("tier", "quick")
+        _, st, pay = runner.run_one(world_job, {"prop": prop_id, "seed": wr["world_seed"], "runs": wr["runs"]}, wall=300)
+    else:
+        job = {"prop": prop_id, "spec": rp["spec"], "scenario": rp.get("scenario"), "rule": rp.get("rule", ""),
+               "decoy_spec": rp.get("decoy_spec"), "prefix_scenarios": rp.get("prefix_scenarios")}
+        _, st, pay = runner.run_one(replay_job, job, wall=300 if rp.get("prefix_scenarios") else 120)
     if st != "ok":
         print(f"HARNESS-ERROR property={prop_id}: replay {st}: {str(pay)[-2000:]}")
         return 2
